@@ -428,8 +428,10 @@ def ty_src(t, tbl: Table, newtypes: list) -> str:
         return "Union[" + ", ".join(ty_src(a, tbl, newtypes) for a in t[1]) + "]"
     if k == "newtype":
         inner = ty_src(t[1], tbl, newtypes)
-        nm = tbl.fresh("NT")
-        newtypes.append((nm, inner))
+        import hashlib
+        nm = "NT_" + hashlib.md5(inner.encode()).hexdigest()[:10]     # deterministic: every rendering agrees
+        if (nm, inner) not in newtypes:
+            newtypes.append((nm, inner))
         return nm
     raise KeyError(k)
 
